@@ -18,7 +18,9 @@ func init() { register("C19", c19Pair, c19Stages, c19Fresh) }
 func c19Fresh(e *Env) {
 	resetObligations(e, "C19.fresh", func(tg resetTarget, field string) bool {
 		switch {
-		case tg.Typ == "RequestContext" && tg.Meth == "ResetWithoutConn":
+		case tg.Typ == "RequestContext" && (tg.Meth == "ResetWithoutConn" || tg.Meth == "Reset"):
+			// ResetWithoutConn runs between the requests of a connection, Reset when the
+			// context goes back to the pool
 			return field == "" || field == "traceInfo"
 		case tg.Typ == "httpStats" && tg.Meth == "Reset":
 			return true
